@@ -212,6 +212,12 @@ func matchTop(doc bson.D, e bson.E) (bool, error) {
 			default:
 				return !any, nil
 			}
+		case "$jsonSchema":
+			sd, ok := e.Value.(bson.D)
+			if !ok {
+				return false, ErrInvalid
+			}
+			return SchemaValid(sd, doc)
 		}
 		return false, ErrInvalid
 	}
